@@ -505,10 +505,12 @@ pub fn supervise(engine: &dyn Engine, tier: Tier, vseed: u64) -> RunOutcome {
         .and_then(|s| s.parse().ok())
         .unwrap_or(1.0);
     let n_cases = ((engine.n_cases(tier) as f64) * scale).max(1.0) as u64;
-    let watchdog = Duration::from_secs(match tier {
-        Tier::Quick => 10,
-        Tier::Thorough => 30,
-    });
+    // The CPU-time limit inside the workers is the hang detector. The wall-clock
+    // watchdog only backs it up against a worker that is blocked without using CPU
+    // (which nothing in this code base can do), so it is generous: on a loaded
+    // machine a legitimate case must never be mistaken for a hang.
+    let _ = tier;
+    let watchdog = Duration::from_secs((info.cpu_limit_s.max(1) as u64 * 8).max(90));
     let wall_cap = Duration::from_secs(
         std::env::var("VERIF_WALL_CAP_S")
             .ok()
